@@ -180,3 +180,14 @@ ORDER_ROLE_OF_BUILDERS = {
     "concat_rows": ("keeps", "rows of a then rows of b"),
     "project_parsed_": ("reads", "first()/last() pick by position within the group"),
 }
+
+
+# ---------------------------------------------------------------------------------------------------------------------
+# collections.abc.Set / MutableSet mixin operators (CPython Lib/_collections_abc.py): which operand the *result* is iterated from.
+#   __and__(self, other):  self._from_iterable(value for value in other if value in self)       -> order of OTHER
+#   __or__(self, other):   self._from_iterable(e for s in (self, other) for e in s)              -> self, then other
+#   __sub__(self, other):  self._from_iterable(value for value in self if value not in other)    -> order of self
+#   __xor__(self, other):  (self - other) | (other - self)                                       -> self, then other
+#   __iand__/__ior__/__isub__/__ixor__ (MutableSet): discard / add in place                       -> first-insertion order of self kept
+# An ordered set that wants "ordered by the first operand" must therefore define __and__ itself.
+ABC_SET_MIXINS_ORDERED_BY_OTHER = {"__and__": "Set.__and__ iterates `other` and keeps what is in self"}
